@@ -26,11 +26,18 @@ func (c *vdCase) drawSpec(depth int, dirBudget *int) *vdSpec {
 	n := rapid.IntRange(0, 3).Draw(c.rt, "lazy_children")
 	used := map[string]bool{}
 	for i := 0; i < n; i++ {
-		name := rapid.SampledFrom(vdAlphabet).Draw(c.rt, "lazy_name")
-		if used[c.m.norm(name)] {
+		name := rapid.SampledFrom(c.alphabet).Draw(c.rt, "lazy_name")
+		if used[name] {
 			continue
 		}
-		used[c.m.norm(name)] = true
+		if used["~"+c.m.norm(name)] && rapid.IntRange(0, 2).Draw(c.rt, "lazy_collision") != 0 {
+			// Two spellings of one name (case-insensitive normaliser): kept
+			// one time in three; the directory then rejects what its
+			// fetcher returns (InvalidArgument) and stays uninitialised.
+			continue
+		}
+		used[name] = true
+		used["~"+c.m.norm(name)] = true
 		kind := rapid.SampledFrom([]string{"file", "file", "symlink", "dir"}).Draw(c.rt, "lazy_kind")
 		ch := vdSpecChild{Name: name, Kind: kind}
 		switch kind {
@@ -56,6 +63,70 @@ func (c *vdCase) opCreateChildren() {
 	d := c.pickDir("dir")
 	overwrite := rapid.Bool().Draw(c.rt, "overwrite")
 	n := rapid.IntRange(1, 3).Draw(c.rt, "children")
+	var names []string
+	used := map[string]bool{}
+	for i := 0; i < n; i++ {
+		name := c.pickName(d, "child_name")
+		if used[name] {
+			// The same spelling twice cannot be expressed (map keys).
+			continue
+		}
+		if used["~"+c.m.norm(name)] && rapid.Bool().Draw(c.rt, "skip_collision") {
+			continue
+		}
+		if used["~"+c.m.norm(name)] {
+			// Two spellings of one name: CreateChildren documents an
+			// InvalidArgument error and changes nothing.
+			c.labels["create_children_colliding_names"] = true
+		}
+		used[name] = true
+		used["~"+c.m.norm(name)] = true
+		names = append(names, name)
+	}
+	if len(names) == 0 {
+		return
+	}
+	c.createChildren(d, overwrite, names, []string{"dir", "dir", "file", "symlink"})
+}
+
+// opWideFill (wide profile) adds 4-12 names that a directory does not have
+// yet in one CreateChildren call, so that one directory reaches 12-16
+// entries. Of two candidate directories the fuller one is filled.
+func (c *vdCase) opWideFill() {
+	d := c.pickDir("dir")
+	if d2 := c.pickDir("dir_alt"); !d2.deleted && !d2.uninit && (d.deleted || d.uninit || len(d2.ents) > len(d.ents)) {
+		d = d2
+	}
+	var absent []string
+	used := map[string]bool{}
+	for _, name := range c.alphabet {
+		if used[c.m.norm(name)] || (!d.uninit && c.m.lookup(d, name) != nil) {
+			continue
+		}
+		used[c.m.norm(name)] = true
+		absent = append(absent, name)
+	}
+	if len(absent) == 0 {
+		return
+	}
+	lo := 4
+	if len(absent) < lo {
+		lo = len(absent)
+	}
+	hi := len(absent)
+	if hi > 12 {
+		hi = 12
+	}
+	k := rapid.IntRange(lo, hi).Draw(c.rt, "fill_count")
+	// A generated subset of the absent names: drop len-k of them.
+	for len(absent) > k {
+		i := rapid.IntRange(0, len(absent)-1).Draw(c.rt, "fill_drop")
+		absent = append(absent[:i:i], absent[i+1:]...)
+	}
+	c.createChildren(d, false, absent, []string{"file", "file", "symlink", "symlink", "dir"})
+}
+
+func (c *vdCase) createChildren(d *mNode, overwrite bool, names []string, kinds []string) {
 	budget := 6 - c.m.liveDirCount()
 	type newChild struct {
 		name string
@@ -65,15 +136,8 @@ func (c *vdCase) opCreateChildren() {
 		leaf virtual.LinkableLeaf
 	}
 	var kids []newChild
-	used := map[string]bool{}
-	for i := 0; i < n; i++ {
-		name := c.pickName(d, "child_name")
-		if used[c.m.norm(name)] {
-			c.rec.Exclude("CreateChildren with two names that collide under the normaliser (the code panics by design)")
-			continue
-		}
-		used[c.m.norm(name)] = true
-		kind := rapid.SampledFrom([]string{"dir", "dir", "file", "symlink"}).Draw(c.rt, "child_kind")
+	for _, name := range names {
+		kind := rapid.SampledFrom(kinds).Draw(c.rt, "child_kind")
 		k := newChild{name: name, kind: kind}
 		if kind == "dir" {
 			if budget <= 0 {
@@ -84,9 +148,6 @@ func (c *vdCase) opCreateChildren() {
 			}
 		}
 		kids = append(kids, k)
-	}
-	if len(kids) == 0 {
-		return
 	}
 	c.noteDirUse(d, true)
 	c.noteBulk(d)
@@ -112,10 +173,9 @@ func (c *vdCase) opCreateChildren() {
 			arg += fmt.Sprintf(" %s=file(%s)", k.name, tag)
 		case "symlink":
 			target := c.nextTarget()
-			k.node = c.m.newLeaf("symlink")
-			k.node.tag = target
+			k.node = c.m.newSymlink(target)
 			c.real(func() { k.leaf = c.w.newSymlinkLeaf(target) })
-			k.node.realLeaf = k.leaf
+			c.setRealLeaf("the symlink factory", k.node, k.leaf)
 			real[comp(k.name)] = virtual.InitialChild{}.FromLeaf(k.leaf)
 			arg += fmt.Sprintf(" %s=symlink(%s)", k.name, target)
 		}
@@ -132,7 +192,7 @@ func (c *vdCase) opCreateChildren() {
 			k := &kids[i]
 			if k.leaf != nil {
 				c.real(func() { k.leaf.Unlink() })
-				k.node.nlink = 0
+				c.m.unlink(k.node)
 			} else {
 				k.node.deleted = true
 				k.node.uninit = false
@@ -178,7 +238,7 @@ func (c *vdCase) opLookups() {
 	c.begin(vdStep{Op: which, Dir: c.dname(d), Name: name})
 	want := one(rOK)
 	if !c.m.need(d) {
-		want = one(rLazyFail)
+		want = one(c.m.needFail)
 	} else if which == "LookupChild" && c.m.lookup(d, name) == nil {
 		want = one(rNoEnt)
 	}
@@ -435,10 +495,18 @@ type vdCursor struct {
 	pages     int
 	mutAtLast int
 	mixed     bool
+	maxSeen   int // largest number of visible entries the directory had at one of the pages
 }
 
 func (c *vdCase) opCursorOpen() {
-	if len(c.cursors) >= 3 {
+	maxCursors := 3
+	pages := []int{1, 1, 2, 3}
+	if c.profile == "wide" {
+		// 1000 stands for "all": no directory has that many entries.
+		maxCursors = 4
+		pages = []int{1, 2, 3, 4, 5, 6, 7, 8, 1000}
+	}
+	if len(c.cursors) >= maxCursors {
 		return
 	}
 	// Of two candidate directories the fuller one is listed, so that
@@ -448,7 +516,7 @@ func (c *vdCase) opCursorOpen() {
 		d = d2
 	}
 	c.m.beginCall()
-	cur := &vdCursor{id: c.nextCur, d: d, page: rapid.SampledFrom([]int{1, 1, 2, 3}).Draw(c.rt, "page_size"), start: c.m.tick}
+	cur := &vdCursor{id: c.nextCur, d: d, page: rapid.SampledFrom(pages).Draw(c.rt, "page_size"), start: c.m.tick}
 	cur.mask = virtual.AttributesMaskFileType | virtual.AttributesMaskInodeNumber | virtual.AttributesMaskLinkCount
 	if rapid.Bool().Draw(c.rt, "locked_attributes") {
 		cur.mask |= virtual.AttributesMaskChangeID
@@ -510,7 +578,11 @@ func (c *vdCase) opCursorNext() {
 	i := rapid.IntRange(0, len(c.cursors)-1).Draw(c.rt, "cursor")
 	cur := c.cursors[i]
 	d := cur.d
-	if rapid.IntRange(0, 9).Draw(c.rt, "rewind") == 0 && len(cur.hist) > 0 {
+	rewindShare := 1
+	if c.profile == "wide" {
+		rewindShare = 3
+	}
+	if rapid.IntRange(0, 9).Draw(c.rt, "rewind") < rewindShare && len(cur.hist) > 0 {
 		// Resume from an earlier cookie that was handed out.
 		j := rapid.IntRange(0, len(cur.hist)-1).Draw(c.rt, "rewind_to")
 		cur.hist = cur.hist[:j]
@@ -522,10 +594,27 @@ func (c *vdCase) opCursorNext() {
 		c.labels["listing_rewound"] = true
 		return
 	}
+	// Which entry was reported last before the cookie this page resumes
+	// from, and is it still there? (Resuming right behind a removed entry
+	// is the case in which the directory has to re-seek by cookie value.)
+	if len(cur.hist) > 0 {
+		last := cur.hist[len(cur.hist)-1].eid
+		for _, e := range d.history {
+			if e.eid == last && e.died != -1 {
+				c.labels["listing_resumed_behind_removed_entry"] = true
+				if len(c.m.visibleEnts(d)) > 8 {
+					c.labels["listing_resumed_behind_removed_entry_wide"] = true
+				}
+			}
+		}
+	}
+	if n := len(c.m.visibleEnts(d)); n > cur.maxSeen && !d.uninit {
+		cur.maxSeen = n
+	}
 	c.begin(vdStep{Op: "VirtualReadDir", Dir: c.dname(d), Arg: fmt.Sprintf("cursor#%d cookie=%d page=%d", cur.id, cur.pos, cur.page)})
 	want := one(rOK)
 	if !c.m.need(d) {
-		want = one(rLazyFail)
+		want = one(c.m.needFail)
 	}
 	if cur.pages > 0 && c.mutations[d] != cur.mutAtLast {
 		cur.mixed = true
@@ -538,6 +627,9 @@ func (c *vdCase) opCursorNext() {
 	if c.checkResult("VirtualReadDir", want, vdStatusName(st), true) {
 		cur.pages++
 		cur.mutAtLast = c.mutations[d]
+		if n := len(c.m.visibleEnts(d)); n > cur.maxSeen {
+			cur.maxSeen = n
+		}
 		if !rep.refused {
 			// The listing ran to the end: everything that was there
 			// all the time must have been reported exactly once.
@@ -556,6 +648,12 @@ func (c *vdCase) opCursorNext() {
 			c.cursorsCompleted++
 			if cur.mixed {
 				c.labels["listing_completed_across_mutation"] = true
+				if cur.maxSeen >= 9 {
+					c.sawWideCompleted = true
+				}
+			}
+			if cur.maxSeen >= 12 {
+				c.labels["listing_over_12_or_more_entries_completed"] = true
 			}
 			c.cursors = append(c.cursors[:i:i], c.cursors[i+1:]...)
 			c.script[len(c.script)-1].Arg += " (end)"
